@@ -1,6 +1,7 @@
 /- Driver commands about the polling scanner (`pp ...`): scanner table by id and a global mock clock. -/
 import Midi.Driver.Scan
 import Midi.Model.Polling
+import Midi.Spec.Monitor
 namespace Midi.Driver
 open Midi Midi.Spec
 
@@ -11,9 +12,79 @@ inductive POp
   | reset
   deriving Repr, Inhabited
 
+/-- monitor states of the 16 channels of one implementation scanner (`none` = already rejected) and its timeout -/
+structure MonTab where
+  timeout : Nat
+  mons : Array (Option Mon)
+
 structure PollSt where
   now : Nat := 0
   tab : Array (Option (PScanner × List POp)) := #[]
+  mon : Array (Option MonTab) := #[]
+
+def decodeMsg (cs : List Int) : Option PNMsg :=
+  match cs with
+  | [c, n, v, r, b, d] =>
+    if c < 0 then none else
+    some ⟨c.toNat, n.toNat, v.toNat, r != 0, b != 0, if d == 1 then .dataIncrement else if d == 2 then .dataDecrement else .dataEntry⟩
+  | _ => none
+
+def decodePOut (cs : List Int) : POut := (decodeMsg (cs.take 6), decodeMsg ((cs.drop 6).take 6))
+
+/-- feed the implementation's result of an event on channel `ch` of scanner `id` to that channel's monitor;
+    returns the new tables and a failure description if the monitor rejects -/
+def monitorEvent (st : PollSt) (id ch : Nat) (e : PEv) (o : POut) : PollSt × Option String :=
+  match getAt st.mon id with
+  | none => (st, none)
+  | some mt =>
+    match (mt.mons[ch]?).join with
+    | none => (st, none)
+    | some m =>
+      match m.step ch mt.timeout e o with
+      | some m' => ({ st with mon := setAt st.mon id { mt with mons := mt.mons.set! ch (some m') } }, none)
+      | none =>
+        ({ st with mon := setAt st.mon id { mt with mons := mt.mons.set! ch none } },
+         some s!"c14Monitor channel={ch} timeout={mt.timeout} event={repr e} result={repr o} monitor={repr m}")
+
+/-- monitor bookkeeping for one request, given the cells the IMPLEMENTATION produced -/
+def monitorReq (st : PollSt) (args : List String) (impl : Obs) : PollSt × List String :=
+  match args with
+  | ["new", id, timeout] =>
+    match id.toNat?, timeout.toNat? with
+    | some id, some t => ({ st with mon := setAt st.mon id { timeout := t, mons := Array.replicate 16 (some {}) } }, [])
+    | _, _ => (st, [])
+  | ["default", id] =>
+    match id.toNat? with
+    | some id => ({ st with mon := setAt st.mon id { timeout := 0, mons := Array.replicate 16 (some {}) } }, [])
+    | _ => (st, [])
+  | ["copy", a, b] =>
+    match a.toNat?, b.toNat? with
+    | some a, some b => (match getAt st.mon a with | some x => ({ st with mon := setAt st.mon b x }, []) | none => (st, []))
+    | _, _ => (st, [])
+  | ["reset", id] =>
+    match id.toNat? with
+    | some id =>
+      (List.range 16).foldl (fun (acc : PollSt × List String) ch =>
+        let (s', f) := monitorEvent acc.1 id ch .reset (none, none)
+        (s', acc.2 ++ f.toList)) (st, [])
+    | none => (st, [])
+  | ["feed", id, _impl, s, d1, d2] =>
+    match id.toNat?, s.toNat?, d1.toNat?, d2.toNat? with
+    | some id, some s, some d1, some d2 =>
+      let o := decodePOut impl
+      if 176 ≤ s && s < 192 then
+        let (st', f) := monitorEvent st id (s - 176) (.cc d1 d2 st.now) o
+        (st', f.toList)
+      else if (outMsgs o).isEmpty then (st, [])
+      else (st, [s!"c14Monitor a message that is not a Control Change reported something: status={s} result={repr o}"])
+    | _, _, _, _ => (st, [])
+  | ["poll", id, ch] =>
+    match id.toNat?, ch.toNat? with
+    | some id, some ch =>
+      let (st', f) := monitorEvent st id ch (.poll st.now) (decodeMsg impl, none)
+      (st', f.toList)
+    | _, _ => (st, [])
+  | _ => (st, [])
 
 def u64Max : Nat := 18446744073709551615
 
